@@ -1022,6 +1022,12 @@ pub fn run_walk(n: usize, concurrency: usize, policies: Vec<Vec<Policy>>, walk: 
                     // injections due at this position
                     for (at, ev) in walk.injections.iter() {
                         if *at == pos && !d.history.contains(ev) {
+                            // an RPC that an earlier injected failure prevented cannot be failed
+                            if let Ev::Fail(key) = ev
+                                && d.find_rpc(key, RpcState::Pending).is_none()
+                            {
+                                continue;
+                            }
                             d.apply(ev).await?;
                             steps.push((d.w.procs.iter().map(|p| p.sem.available_permits()).collect(), d.snapshot().actors_alive.len()));
                         }
@@ -1050,6 +1056,11 @@ pub fn run_walk(n: usize, concurrency: usize, policies: Vec<Vec<Policy>>, walk: 
                 // injections scheduled after the end
                 for (at, ev) in walk.injections.iter() {
                     if *at >= pos && !d.history.contains(ev) {
+                        if let Ev::Fail(key) = ev
+                            && d.find_rpc(key, RpcState::Pending).is_none()
+                        {
+                            continue;
+                        }
                         d.apply(ev).await?;
                     }
                 }
